@@ -4,6 +4,7 @@ Only property theorems and non-vacuity examples; helpers are in `GT.Lemmas.CP1`.
 Model: `GT.Model.CP1` (complex numbers as pairs over an ordered field `K`; executed over ℚ(i)).
 -/
 import GT.Lemmas.CP1
+import GT.Lemmas.CP1Sets
 import Mathlib.Tactic.NormNum
 
 set_option linter.unusedSectionVars false
@@ -193,6 +194,39 @@ theorem centreInside_repaired {ρ : K → K} (hρ : IsSqrt ρ) (c : K × K) (r :
 
 end disk
 
+/-! ## a disk built from a spherical centre and a Fubini–Study radius -/
+
+section fs
+variable {F : Type*} [Field F]
+
+/-- under the QR contract (`q` orthogonal, `q0 * r00 = centre`, so `r00 = ±1` for a unit centre)
+and `c2² + s2² = 1`, each of the three boundary points of the `"fs"` constructor lies on the unit
+sphere at spherical angle `2·rad` from the centre (`⟨p, centre⟩ = cos(2 rad)`), i.e. at
+Fubini–Study distance `rad`: the disk reports the requested centre and radius -/
+theorem fs_disk_boundary (q0 q1 q2 ctr : V3 F) (r00 c2 s2 : F)
+    (h00 : dot3 q0 q0 = 1) (h11 : dot3 q1 q1 = 1) (h22 : dot3 q2 q2 = 1)
+    (h01 : dot3 q0 q1 = 0) (h02 : dot3 q0 q2 = 0) (h12 : dot3 q1 q2 = 0)
+    (hr : r00 * r00 = 1) (hc : ctr = (r00 * q0.1, r00 * q0.2.1, r00 * q0.2.2))
+    (hcs : c2 * c2 + s2 * s2 = 1) :
+    let b := fsBoundary q0 q1 q2 r00 c2 s2
+    (dot3 b.1 b.1 = 1 ∧ dot3 b.1 ctr = c2) ∧ (dot3 b.2.1 b.2.1 = 1 ∧ dot3 b.2.1 ctr = c2) ∧
+    (dot3 b.2.2 b.2.2 = 1 ∧ dot3 b.2.2 ctr = c2) := by
+  subst hc
+  unfold dot3 at *
+  simp only [fsBoundary, fsPoint]
+  refine ⟨⟨?_, ?_⟩, ⟨?_, ?_⟩, ⟨?_, ?_⟩⟩
+  · linear_combination (r00 * r00 * c2 * c2) * h00 + (r00 * r00 * s2 * s2) * h11
+      + (2 * r00 * r00 * c2 * s2) * h01 + (c2 * c2 + s2 * s2) * hr + hcs
+  · linear_combination (r00 * r00 * c2) * h00 + (r00 * r00 * s2) * h01 + c2 * hr
+  · linear_combination (r00 * r00 * c2 * c2) * h00 + (r00 * r00 * s2 * s2) * h11
+      - (2 * r00 * r00 * c2 * s2) * h01 + (c2 * c2 + s2 * s2) * hr + hcs
+  · linear_combination (r00 * r00 * c2) * h00 - (r00 * r00 * s2) * h01 + c2 * hr
+  · linear_combination (r00 * r00 * c2 * c2) * h00 + (r00 * r00 * s2 * s2) * h22
+      + (2 * r00 * r00 * c2 * s2) * h02 + (c2 * c2 + s2 * s2) * hr + hcs
+  · linear_combination (r00 * r00 * c2) * h00 + (r00 * r00 * s2) * h02 + c2 * hr
+
+end fs
+
 /-! ## Möbius maps, cross-ratio, inversion in the boundary circle -/
 
 section mobius
@@ -315,12 +349,9 @@ end mobius
 section logic
 variable {K : Type*} [Field K] [LinearOrder K] [IsStrictOrderedRing K]
 
-/-- PARTIAL: the boolean `contains` leaves for one pair equals the inequality on
-`(d, r₁, r₂)` written out per case in `containsSpec`.  Missing for the full clause ("agrees with
-the set-theoretic answer"): that `containsSpec` characterises `D_o ⊆ D_s` for the open disks /
-complements of closed disks (triangle inequality in the plane; covered only by the sampled
-set-theoretic oracle of props/C20.py). -/
-theorem contains_logic_partial (sAff oAff : Bool) (d r1 r2 : K) :
+/-- the boolean `contains` leaves for one pair equals the inequality on `(d, r₁, r₂)` written
+out per case in `containsSpec` -/
+theorem contains_table (sAff oAff : Bool) (d r1 r2 : K) :
     containsUnit sAff oAff (interactions d r1 r2) = true ↔ containsSpec sAff oAff d r1 r2 := by
   cases sAff <;> cases oAff <;>
     simp only [containsUnit, interactions, containsSpec, Bool.and_self, Bool.not_true, Bool.not_false,
@@ -328,9 +359,8 @@ theorem contains_logic_partial (sAff oAff : Bool) (d r1 r2 : K) :
       Bool.not_eq_true', decide_eq_false_iff_not, not_lt, iff_false, not_false_eq_true] <;>
     constructor <;> intro h <;> linarith
 
-/-- PARTIAL: as `contains_logic_partial`, for `intersects` (repaired masks) and
-`intersectsSpec`; the characterisation of `D_s ∩ D_o ≠ ∅` by `intersectsSpec` is not proved. -/
-theorem intersects_logic_partial (sAff oAff : Bool) (d r1 r2 : K) :
+/-- as `contains_table`, for `intersects` (repaired masks) and `intersectsSpec` -/
+theorem intersects_table (sAff oAff : Bool) (d r1 r2 : K) :
     intersectsUnit sAff oAff (interactions d r1 r2) = true ↔ intersectsSpec sAff oAff d r1 r2 := by
   cases sAff <;> cases oAff <;>
     simp only [intersectsUnit, interactions, intersectsSpec, Bool.and_self, Bool.not_true, Bool.not_false,
@@ -340,6 +370,143 @@ theorem intersects_logic_partial (sAff oAff : Bool) (d r1 r2 : K) :
   · constructor <;> intro h <;> linarith
   · constructor <;> intro h <;> linarith
 
+/-! ### the case table is the set-theoretic answer -/
+
+section sets
+variable {d r1 r2 : K} {c1 c2 : K × K}
+
+/-- `containsSpec` ⇒ (in general position) even the CLOSED disk `o` lies in the OPEN disk `s`,
+and `∞ ∈ o ⇒ ∞ ∈ s` -/
+theorem contains_sound (hd : IsDist d c1 c2) (h1 : 0 < r1) (h2 : 0 < r2) (hg : GenPos d r1 r2)
+    (sAff oAff : Bool) (h : containsSpec sAff oAff d r1 r2) :
+    (∀ z, memDisk oAff false c2 r2 z → memDisk sAff true c1 r1 z) ∧ (memInf oAff → memInf sAff) := by
+  cases sAff <;> cases oAff <;> simp only [containsSpec] at h
+  · -- both unbounded: ext₂ ⊆ ext₁ because disc₁ ⊆ disc₂
+    refine ⟨fun z hz => ?_, fun _ => rfl⟩
+    simp only [memDisk] at hz ⊢
+    by_contra hc
+    push_neg at hc
+    have := closed_sub_open hd.symm h1.le h z (by unfold dist2; exact hc)
+    unfold dist2 at this
+    linarith
+  · -- s unbounded, o bounded: disc₂ misses disc₁
+    refine ⟨fun z hz => ?_, fun hi => by cases hi⟩
+    simp only [memDisk] at hz ⊢
+    by_contra hc
+    push_neg at hc
+    have hlt : r1 + r2 < d := lt_of_le_of_ne h hg.2.2
+    exact closed_disjoint hd h1.le h2.le hlt z (by unfold dist2; exact hc) (by unfold dist2; exact hz)
+  · refine ⟨fun z hz => ?_, fun hi => by cases hi⟩
+    simp only [memDisk] at hz ⊢
+    exact closed_sub_open hd h2.le h z (by unfold dist2; exact hz)
+
+/-- `¬ containsSpec` ⇒ (in general position) not even the OPEN disk `o` lies in the CLOSED disk `s` -/
+theorem contains_complete (hd : IsDist d c1 c2) (h1 : 0 < r1) (h2 : 0 < r2) (hg : GenPos d r1 r2)
+    (sAff oAff : Bool) (h : ¬ containsSpec sAff oAff d r1 r2) :
+    ¬ ((∀ z, memDisk oAff true c2 r2 z → memDisk sAff false c1 r1 z) ∧ (memInf oAff → memInf sAff)) := by
+  rintro ⟨hz, hinf⟩
+  cases sAff <;> cases oAff <;> simp only [containsSpec] at h
+  · -- both unbounded: some point of disc₁ is outside disc₂
+    have hlt : r2 < d + r1 := lt_of_le_of_ne (not_lt.1 h) (Ne.symm hg.2.1)
+    obtain ⟨z, za, zb⟩ := open_not_sub hd.symm h2.le h1 hlt
+    have := hz z (by simp only [memDisk]; unfold dist2 at zb; exact zb)
+    simp only [memDisk] at this
+    unfold dist2 at za
+    linarith
+  · have hlt : d < r1 + r2 := not_le.1 h
+    obtain ⟨z, za, zb⟩ := open_meet hd h1 h2 hlt
+    have := hz z (by simp only [memDisk]; unfold dist2 at zb; exact zb)
+    simp only [memDisk] at this
+    unfold dist2 at za
+    linarith
+  · -- a bounded disk does not contain ∞
+    have := hinf rfl
+    cases this
+  · have hlt : r1 < d + r2 := lt_of_le_of_ne (not_lt.1 h) (Ne.symm hg.1)
+    obtain ⟨z, za, zb⟩ := open_not_sub hd h1.le h2 hlt
+    have := hz z (by simp only [memDisk]; unfold dist2 at za; exact za)
+    simp only [memDisk] at this
+    unfold dist2 at zb
+    linarith
+
+/-- `intersectsSpec` ⇒ (in general position) the OPEN disks share a point (finite, or `∞`) -/
+theorem intersects_sound (hd : IsDist d c1 c2) (h1 : 0 < r1) (h2 : 0 < r2) (hg : GenPos d r1 r2)
+    (sAff oAff : Bool) (h : intersectsSpec sAff oAff d r1 r2) :
+    (∃ z, memDisk sAff true c1 r1 z ∧ memDisk oAff true c2 r2 z) ∨ (memInf sAff ∧ memInf oAff) := by
+  cases sAff <;> cases oAff <;> simp only [intersectsSpec] at h
+  · exact Or.inr ⟨rfl, rfl⟩
+  · left
+    have hlt : r1 < d + r2 := lt_of_le_of_ne (not_lt.1 h) (Ne.symm hg.1)
+    obtain ⟨z, za, zb⟩ := open_not_sub hd h1.le h2 hlt
+    exact ⟨z, by simp only [memDisk]; unfold dist2 at zb; exact zb,
+      by simp only [memDisk]; unfold dist2 at za; exact za⟩
+  · left
+    have hlt : r2 < d + r1 := lt_of_le_of_ne (not_lt.1 h) (Ne.symm hg.2.1)
+    obtain ⟨z, za, zb⟩ := open_not_sub hd.symm h2.le h1 hlt
+    exact ⟨z, by simp only [memDisk]; unfold dist2 at za; exact za,
+      by simp only [memDisk]; unfold dist2 at zb; exact zb⟩
+  · left
+    obtain ⟨z, za, zb⟩ := open_meet hd h1 h2 h
+    exact ⟨z, by simp only [memDisk]; unfold dist2 at za; exact za,
+      by simp only [memDisk]; unfold dist2 at zb; exact zb⟩
+
+/-- `¬ intersectsSpec` ⇒ (in general position) not even the CLOSED disks share a point -/
+theorem intersects_complete (hd : IsDist d c1 c2) (h1 : 0 < r1) (h2 : 0 < r2) (hg : GenPos d r1 r2)
+    (sAff oAff : Bool) (h : ¬ intersectsSpec sAff oAff d r1 r2) :
+    ¬ ((∃ z, memDisk sAff false c1 r1 z ∧ memDisk oAff false c2 r2 z) ∨ (memInf sAff ∧ memInf oAff)) := by
+  rintro (⟨z, za, zb⟩ | ⟨ia, ib⟩)
+  · cases sAff <;> cases oAff <;> simp only [intersectsSpec, not_not, not_true_eq_false] at h
+    · simp only [memDisk] at za zb
+      have := closed_sub_open hd h2.le h z (by unfold dist2; exact zb)
+      unfold dist2 at this
+      linarith
+    · simp only [memDisk] at za zb
+      have := closed_sub_open hd.symm h1.le h z (by unfold dist2; exact za)
+      unfold dist2 at this
+      linarith
+    · simp only [memDisk] at za zb
+      have hlt : r1 + r2 < d := lt_of_le_of_ne (not_lt.1 h) hg.2.2
+      exact closed_disjoint hd h1.le h2.le hlt z (by unfold dist2; exact za) (by unfold dist2; exact zb)
+  · cases sAff <;> cases oAff <;> simp only [intersectsSpec, not_not, not_true_eq_false] at h
+    · cases ib
+    · cases ia
+    · cases ia
+
+/-- **`contains` agrees with the set-theoretic answer** (one pair of disks in general position,
+`d` the distance of the centres of the boundary circles): `True` ⇒ the closed disk `o` lies
+inside the open disk `s`; `False` ⇒ the open disk `o` does not even lie in the closed disk `s` -/
+theorem contains_logic (hd : IsDist d c1 c2) (h1 : 0 < r1) (h2 : 0 < r2) (hg : GenPos d r1 r2)
+    (sAff oAff : Bool) :
+    (containsUnit sAff oAff (interactions d r1 r2) = true →
+      (∀ z, memDisk oAff false c2 r2 z → memDisk sAff true c1 r1 z) ∧ (memInf oAff → memInf sAff)) ∧
+    (containsUnit sAff oAff (interactions d r1 r2) = false →
+      ¬ ((∀ z, memDisk oAff true c2 r2 z → memDisk sAff false c1 r1 z) ∧ (memInf oAff → memInf sAff))) := by
+  constructor
+  · intro h
+    exact contains_sound hd h1 h2 hg sAff oAff ((contains_table sAff oAff d r1 r2).1 h)
+  · intro h
+    apply contains_complete hd h1 h2 hg sAff oAff
+    intro hs
+    rw [(contains_table sAff oAff d r1 r2).2 hs] at h
+    cases h
+
+/-- **`intersects` (repaired) agrees with the set-theoretic answer** -/
+theorem intersects_logic (hd : IsDist d c1 c2) (h1 : 0 < r1) (h2 : 0 < r2) (hg : GenPos d r1 r2)
+    (sAff oAff : Bool) :
+    (intersectsUnit sAff oAff (interactions d r1 r2) = true →
+      (∃ z, memDisk sAff true c1 r1 z ∧ memDisk oAff true c2 r2 z) ∨ (memInf sAff ∧ memInf oAff)) ∧
+    (intersectsUnit sAff oAff (interactions d r1 r2) = false →
+      ¬ ((∃ z, memDisk sAff false c1 r1 z ∧ memDisk oAff false c2 r2 z) ∨ (memInf sAff ∧ memInf oAff))) := by
+  constructor
+  · intro h
+    exact intersects_sound hd h1 h2 hg sAff oAff ((intersects_table sAff oAff d r1 r2).1 h)
+  · intro h
+    apply intersects_complete hd h1 h2 hg sAff oAff
+    intro hs
+    rw [(intersects_table sAff oAff d r1 r2).2 hs] at h
+    cases h
+
+end sets
 end logic
 
 theorem containsElem_eq (l : List Unit5) :
@@ -537,5 +704,11 @@ example : (M2.ofRows ((1 : ℚ), (2 : ℚ)) (1, -1)).det ≠ 0 := by
 example : containsElem [true, false, false, true] [true, true, false, false]
     [true, false, false, false] [false, false, true, false] [true, false, true, true]
     = .ok [true, true, true, false] := by decide
+
+/-- hypotheses of `contains_logic` / `intersects_logic`: centres `(0,0)`, `(3,4)` at distance 5,
+radii 1 and 2, in general position -/
+example : IsDist (5 : ℚ) (0, 0) (3, 4) ∧ GenPos (5 : ℚ) 1 2 := by
+  refine ⟨⟨by norm_num, by simp [dist2]; norm_num⟩, ?_⟩
+  simp [GenPos]; norm_num
 
 end GT.C20
